@@ -96,7 +96,14 @@ func backoffStreak(c *vk.C, rng *rand.Rand, k int) {
 
 	var outcomes []string
 
-	for i := 0; i < 8; i++ {
+	// every sixth scenario the streak is long (45 failures, about 40 virtual minutes): the delay must stay up for as long as the
+	// item keeps failing
+	streakLen := 8
+	if k%6 == 5 {
+		streakLen = 45
+	}
+
+	for i := 0; i < streakLen; i++ {
 		outcomes = append(outcomes, []string{"err", "err", "panic"}[rng.IntN(3)])
 	}
 
@@ -127,7 +134,7 @@ func backoffStreak(c *vk.C, rng *rand.Rand, k int) {
 		rtp.Quiesce(time.Duration(rng.IntN(3000)) * time.Millisecond)
 	}
 
-	rtp.Quiesce(10 * time.Minute) // the streak and (for ok-with-requeue) the requested re-run are over
+	rtp.Quiesce(time.Duration(streakLen) * 2 * time.Minute) // the streak and (for ok-with-requeue) the requested re-run are over
 
 	recs := func() []*rtp.Wake {
 		var out []*rtp.Wake
@@ -153,7 +160,7 @@ func backoffStreak(c *vk.C, rng *rand.Rand, k int) {
 	w.WaitRun()
 	synctest.Wait()
 
-	if len(rs) < 11 {
+	if len(rs) < streakLen+3 {
 		c.Violation("failed-or-requeued-item-never-retried", map[string]any{"mode": "backoff-streak", "outcomes": outcomes, "reconciles": len(rs)})
 
 		return
@@ -161,11 +168,11 @@ func backoffStreak(c *vk.C, rng *rand.Rand, k int) {
 
 	var gaps []float64
 
-	for i := 0; i < 8; i++ {
+	for i := 0; i < streakLen; i++ {
 		gaps = append(gaps, rs[i+1].AtMS-rs[i].EndMS)
 	}
 
-	after := rs[10].AtMS - rs[9].EndMS // retry of the failure that follows the successful reconcile
+	after := rs[streakLen+2].AtMS - rs[streakLen+1].EndMS // retry of the failure that follows the successful reconcile
 	detail := map[string]any{"mode": "backoff-streak", "outcomes": outcomes, "gaps_ms": gaps, "gap_after_success_then_failure_ms": after, "success_kind": success}
 
 	c.Count("backoff_streaks_checked", 1)
@@ -181,10 +188,24 @@ func backoffStreak(c *vk.C, rng *rand.Rand, k int) {
 		}
 	}
 
+	// nothing succeeded inside the streak, so the delay may not collapse (a factor of 8 leaves room for any jitter)
+	for i := 0; i+1 < len(gaps); i++ {
+		if gaps[i+1] < gaps[i]/8 {
+			detail["index"] = i + 1
+			c.Violation("backoff-reset-without-success", detail)
+
+			return
+		}
+	}
+
+	if streakLen > 8 {
+		c.Count("backoff_long_streaks_checked", 1)
+	}
+
 	switch {
 	case gaps[7] <= 2*gaps[0]:
 		c.Violation("backoff-not-growing", detail)
-	case after >= gaps[7]/2:
+	case after >= gaps[len(gaps)-1]/2:
 		c.Violation("backoff-not-reset-on-success", detail)
 	case after <= 0:
 		c.Violation("retry-without-backoff", detail)
